@@ -350,3 +350,145 @@ def gen_interleave_spec(rng, nstacks):
                 toks.append("%s:%d" % (n, ar) + ("(indexes=%s)" % ":".join(perm) if n == target else ""))
             out.append(" ".join(toks))
     return out
+
+
+# ---------------------------------------------------------------------------
+# SPEC of attached NUMA nodes ("[numa(...)]" after an item: one NUMA node per object of that level, local to
+# that object's PUs), independent of the Coq model and of the type filters (filters never apply to NUMA nodes).
+# ---------------------------------------------------------------------------
+ATT_TYPES = [("pack", 1), ("die", 2), ("l3", 7), ("l2", 6), ("l1", 5), ("l1i", 10), ("core", 3)]
+_ATT_LEVEL = re.compile(r"^(pack|die|l3|l2|l1|l1i|core|pu):(\d+)$")
+_ATT_NUMA = re.compile(r"^\[numa(?:\(([^()\[\]]*)\))?\]$")
+
+
+def att_parse(desc):
+    levels, att, idx = [], [[]], None      # att[d]: attached records of level d (0 = Machine)
+    toks = re.findall(r"\[numa(?:\([^()\[\]]*\))?\]|[a-z0-9]+:\d+", desc)
+    if " ".join(toks) != desc:
+        return None
+    for tok in toks:
+        m = _ATT_LEVEL.match(tok)
+        if m:
+            if m.group(1) in [l[0] for l in levels] or not 1 <= int(m.group(2)) <= 64:
+                return None
+            levels.append((m.group(1), int(m.group(2))))
+            att.append([])
+            continue
+        m = _ATT_NUMA.match(tok)
+        if not m:
+            return None
+        mem, msc = 0, 0
+        for a in (m.group(1) or "").split(" "):
+            if not a:
+                continue
+            k, _, v = a.partition("=")
+            if k == "memory" and v.isdigit():
+                mem = int(v)
+            elif k == "memorysidecachesize" and v.isdigit():
+                msc = int(v)
+            elif k == "indexes" and re.fullmatch(r"\d+(,\d+)*", v):
+                idx = [int(x) for x in v.split(",")]       # the last one written is used for all attached nodes
+            else:
+                return None
+        att[-1].append((mem or 1073741824, msc))
+    if not levels or levels[-1][0] != "pu" or not any(att):
+        return None
+    return levels, att, idx
+
+
+def att_expected(desc, memcache_kept):
+    """-> sorted list of (os_index, memory, memory-side cache size, PUs) of the NUMA nodes, or None"""
+    p = att_parse(desc)
+    if p is None:
+        return None
+    levels, att, idx = p
+    width, w = [1], 1
+    for _, ar in levels:
+        w *= ar
+        width.append(w)
+    npu = width[-1]
+    if npu > 2048:
+        return None
+    total = sum(len(att[d]) * width[d] for d in range(len(att)))
+    if idx is not None and (len(idx) != total or len(set(idx)) != total):
+        return None
+    out, cnt = [], [0]
+
+    def visit(d, j):
+        if d < len(levels):
+            ar = levels[d][1]
+            for i in range(ar):
+                visit(d + 1, j * ar + i)
+        per = npu // width[d]
+        for mem, msc in att[d]:
+            k = cnt[0]
+            cnt[0] += 1
+            out.append((idx[k] if idx is not None else k, mem, msc if memcache_kept else 0, tuple(range(j * per, (j + 1) * per))))
+    visit(0, 0)
+    return sorted(out)
+
+
+def gen_attached_spec(rng, n):
+    """canonical descriptions with NUMA nodes attached to arbitrary levels (instruction caches included) + a filter word"""
+    out = []
+    for _ in range(n):
+        names = [nm for nm, _ in ATT_TYPES if rng.random() < 0.6]
+        if rng.random() < 0.7 and "l1i" not in names:
+            names.insert(rng.randrange(len(names) + 1), "l1i")
+            names = [nm for nm, _ in ATT_TYPES if nm in names]
+        levels, tot = [], 1
+        for nm in names:
+            ar = rng.choice([1, 2, 2, 3])
+            if tot * ar > 48:
+                ar = 1
+            tot *= ar
+            levels.append((nm, ar))
+        levels.append(("pu", rng.choice([1, 2, 2, 3])))
+        toks, nat, widths, w = [], 0, [1], 1
+        for _, ar in levels:
+            w *= ar
+            widths.append(w)
+        where = [d for d in range(len(levels)) if rng.random() < 0.45] or [rng.randrange(len(levels))]
+        atts = {}
+        for d in where:
+            atts[d] = rng.choice([1, 1, 1, 2])
+            nat += atts[d] * widths[d]
+        perm = None
+        if rng.random() < 0.4:
+            perm = list(range(nat))
+            rng.shuffle(perm)
+            if rng.random() < 0.3:
+                perm = [x + rng.choice([0, 3, 100]) for x in perm]
+                perm = perm if len(set(perm)) == nat else list(range(nat))
+        def numa_tok(last):
+            a = []
+            if rng.random() < 0.6:
+                a.append("memory=%d" % rng.choice([4096, 1048576, 3 << 30, 7]))
+            if rng.random() < 0.35:
+                a.append("memorysidecachesize=%d" % rng.choice([65536, 1 << 20]))
+            if last and perm is not None:
+                a.append("indexes=%s" % ",".join(map(str, perm)))
+            rng.shuffle(a)
+            return "[numa(%s)]" % " ".join(a) if a else "[numa]"
+        seq = []
+        for d in range(len(levels) + 0):
+            for _ in range(atts.get(d, 0)):
+                seq.append(d)
+        for d in range(len(levels)):
+            for k in range(atts.get(d, 0)):
+                toks.append(("A", d))
+            toks.append(("L", d))
+        res, seen = [], 0
+        for kind, d in toks:
+            if kind == "L":
+                res.append("%s:%d" % levels[d])
+            else:
+                seen += 1
+                res.append(numa_tok(seen == len(seq)))
+        present = [ty for nm, ty in ATT_TYPES if nm in names]
+        base = rng.choice(["D", "D", "D", "A"])
+        none = [ty for ty in present if rng.random() < 0.3]
+        struct = [ty for ty in present if ty not in none and rng.random() < 0.15]
+        fw = "l" + base + ("N" + ".".join(map(str, none)) if none else "") + ("S" + ".".join(map(str, struct)) if struct else "")
+        out.append((" ".join(res), fw))
+    return out
